@@ -53,6 +53,9 @@ def views(t):
             out.append(own)
         if all("ref" in s for s in inner):
             out.append(ref)
+            if k in ("option", "result"):
+                # `Option<&T>` / `Result<&T, &E>` by value: the inner regions take references
+                out.append(View("asref", lambda x: "%s.as_ref()" % x))
         return out
     if k == "consec":
         return views(a[0])
@@ -212,6 +215,8 @@ def reserve_names(t):
             out.add("own")
         if all("ref" in s for s in inner):
             out.add("ref")
+            if k in ("option", "result"):
+                out.add("asref")
         return out
     if k == "consec":
         return reserve_names(a[0])
@@ -409,6 +414,10 @@ def main():
         forms_of[str(t)] = names
         ord_of[str(t)] = ord_ok(t)
     gen_lean.write(entries, stacks, forms_of, ord_of)
+    import gen_covered_universe
+    gen_covered_universe.main()
+    import gen_covered_universe_ops
+    gen_covered_universe_ops.main()
     # machine-readable summary for the check driver
     import json
     summ = []
